@@ -81,6 +81,28 @@ PROPS["C14"] = {
     "assumptions": ["Go maps have unique keys"],
 }
 
+PROPS["C15"] = {
+    "streams": [{"name": "c15", "n_quick": 800, "n_thorough": 20000, "race": True}],
+    "level_text": "In the model the admission library is a function of (configuration, request, the oracle answers it reads); the only process-wide state it touches is the five shared response objects and the metric counters. C15_histories: for every history and every initial state each response equals the solo response and the shared store is untouched; C15_shared_constant: every non-fresh response the library hands out is one of the five constants; C15_interleavings: any reordering of a history leaves the same counters. On the implementation: 40-request histories through one long-lived Admission (real PrometheusRecorder) vs freshly constructed ones, sequentially and while 16 goroutines replay the history, under the race detector, with the five shared objects snapshotted after every request.",
+    "level_note": ADM_NOTE + " Finding F1 (webhook wrote into the shared objects) was visible here and is repaired.",
+    "partial": "race freedom at the Go memory-model level is observed by the race detector and by deep comparison, not proved; the theorem covers the action-level model in which the library has no hidden state",
+    "assumptions": ["the Evaluator handed to Admission is a function of its arguments (C14 for the shipped registry)"],
+}
+PROPS["C16"] = {
+    "streams": [{"name": "c16", "n_quick": 400, "n_thorough": 5000, "race": True}],
+    "level_text": "C16_exchange / C16_classify: the handler model answers a well-formed v1 review with 200, its own uid and the library's verdict, and every other class (no body, >= 3 MiB -> 413, content type other than exactly application/json, undecodable, other kind, review without request) with an HTTP error and no review; C16_concurrent + C16_progress: for any number of handler threads and ANY interleaving of their atomic steps over the five shared response objects, every encoded uid is the thread's own and the shared objects are never written; C16_unfixed_refuted / C16_unfixed_dirty_store: the pre-fix handler violates both (finding F1). The real HandleValidate is driven through hook H2: all classes incl. sizes 3MiB-1/3MiB/3MiB+1, and 8 concurrent clients x 400 reviews answered from shared responses under the race detector. F1 and F2 were found here and repaired by fix: commits.",
+    "level_note": "Trusted: Coq kernel; Model/Webhook.v (classification + action-level thread model with atomic steps copy / set uid / encode); net/http, the apimachinery universal deserializer and json encoding are exercised, not modelled; the admission delegate is the model of C01-C12. No axioms.",
+    "partial": "the Go memory model and net/http's per-connection goroutines are runtime: observed under -race and by checking every uid",
+    "assumptions": [],
+}
+PROPS["C18"] = {
+    "streams": [{"name": "c18", "n_quick": 400, "n_thorough": 10000, "race": True}, {"name": "c18adm", "n_quick": 1200, "n_thorough": 30000}],
+    "level_text": "Admission half (C18_admission_metrics'): for every request and oracle world, an evaluated pod request records exactly one enforce evaluation whose decision matches the response, an exempted request exactly one exemption and nothing else, a request failing at a call site one fatal error, ignored requests nothing, audit/warn denials iff reported. Recorder half: C18_get_exact / C18_counts (each series equals its number of recordings since the last reset), C18_exact_any_order (any permutation/interleaving of recordings gives the same counters), C18_reset, C18_bucket + C18_bucket_cardinality + C18_request_labels (policy_version is 'latest', 'future' or v1.k with k <= server minor: at most minor+3 values whatever labels users write). Real PrometheusRecorder in a fresh registry: record/reset histories gathered and compared; 16 goroutines x 4000 recordings with exact totals; adversarial versions up to v1.(2^40).",
+    "level_note": "Trusted: Coq kernel; Model/Metrics.v (the CachedInc fast path and the slow path are one increment in the model; the correspondence covers cached and uncached label tuples); prometheus counter internals and the RWMutex are runtime. No axioms.",
+    "partial": "atomicity of prometheus counters and of the RWMutex-guarded cache is runtime: observed under -race and by exact totals",
+    "assumptions": ["policy versions come from ParseVersion (latest or v1.N) - C05/C17"],
+}
+
 # properties not yet claimed (kept current as checks are added)
 NOT_APPLICABLE = [
     {"property_id": p, "reason": "check under construction in this session: model/theorems not yet committed (see DESIGN.md section 7 for the planned statement)"}
